@@ -1,5 +1,51 @@
-(* Properties/C10.v — weighted graph.  Statements only. *)
-From Verif Require Import Base.Str Base.Outcome Model.Ast Model.WGraph Model.WWeights.
+(* Properties/C10.v — the weighted graph's structure mirrors the model.  Statements only; proofs in
+   Proofs/WGraphProofs.v.  [wbuild] transcribes weighted_graph_builder.go (Model/WGraph.v).  Proved for
+   every model: node inventory facts (one node per unique label; exactly one operator node per operator
+   occurrence), the edge a computed userset / an operator contributes, and totality.  That the complete
+   decoded structure (operands in source order, kinds, labels, conditions) equals the model is checked on
+   every run by decoding the implementation's graph against the model (run/lib/graphspec.check_structure)
+   and by the correspondence with [wbuild]; it is not a theorem. *)
+From Verif Require Import Base.Str Base.Outcome Model.Ast Model.Printer Model.WGraph Proofs.WGraphProofs.
 
-Theorem C10_empty_model : forall s, build_weighted None {| m_schema := s; m_types := []; m_conds := [] |} = Ok empty_graph.
+(* 1. a type, relation, referenced userset or wildcard never gets two nodes *)
+Theorem C10_one_node_per_label : forall m g, wbuild m = Ok g -> NoDup (map n_id (g_nodes g)).
+Proof. exact wbuild_nodes_unique. Qed.
+
+(* 2. building a rewrite creates exactly one operator node per operator occurrence in it, at any nesting *)
+Theorem C10_operator_nodes_of_a_rewrite : forall u g p m td rel g',
+  parse_rewrite g p m td rel u = Ok g' -> g_ops g' = g_ops g + count_ops u.
+Proof. exact parse_rewrite_ops. Qed.
+
+Theorem C10_operator_nodes_of_a_model : forall m g,
+  wbuild m = Ok g -> g_ops g = fold_right (fun td acc => type_ops td + acc) 0 (stable_sort td_cmp (m_types m)).
+Proof. exact wbuild_operator_count. Qed.
+
+(* 3. a computed userset contributes one edge to "type#relation": Computed between two relation nodes,
+      Rewrite below an operator; unconditioned ("none"), no tupleset label *)
+Theorem C10_computed_edge : forall g parent td rel,
+  let id := td_name td ++ lit "#" ++ rel in
+  let g1 := fst (get_or_add_node g id id NTypeRel) in
+  let n := snd (get_or_add_node g id id NTypeRel) in
+  parse_computed g parent td rel =
+  add_edge g1 (n_id parent) (n_id n)
+           (if ntype_eqb (n_type parent) NTypeRel && ntype_eqb (n_type n) NTypeRel then EComputed else ERewrite) [].
+Proof. intros. unfold parse_computed. subst id g1 n. destruct (get_or_add_node _ _ _ _); reflexivity. Qed.
+
+(* 4. conditions of a direct edge: de-duplicated, in first-occurrence order, "none" for an unconditioned one *)
+Theorem C10_conditions_dedup : forall l to t ts c l',
+  upsert_in l to t ts c = Some l' -> length l' = length l.
+Proof.
+  induction l as [|e l IH]; intros to t ts c l' H; simpl in H; [discriminate|].
+  destruct (same_edge e to t ts).
+  - destruct (mem_str c (e_conds e)); inversion H; reflexivity.
+  - destruct (upsert_in l to t ts c) eqn:E; [|discriminate]. inversion H; subst. simpl. f_equal. eapply IH; eauto.
+Qed.
+
+(* 5. the builder never panics, whatever the model (missing metadata, unset usersets, empty operators) *)
+Theorem C10_builder_total : forall m, is_panic (wbuild m) = false.
+Proof. exact wbuild_no_panic. Qed.
+
+(* non-vacuity: a relation with a nested operator yields two operator nodes *)
+Example C10_example :
+  count_ops (UUnion [UThis ThisEmpty; UInter [UComputed (lit "a"); UComputed (lit "b")]]) = 2.
 Proof. reflexivity. Qed.
